@@ -16,6 +16,7 @@ var textCorpus = []string{
 	"日本語テキスト", "héllo wörld", "éa", "ÀÉÎ ÕÜ", "straße", "ǅungla", "ﬁne ligature", "İstanbul", "ΑΒΓ αβγ", "привет мир", "naïve café",
 	"emoji 😀 test", "a😀b", "\u00a0nbsp\u00a0", "\u2003em space", "\u0085nel", "x\u200by", "e\u0301 combining",
 	"\xff\xfe", "bad\xc3", "a\xe2\x28\xa1b", "BadUTF8\xe2\xe2\xa1", "\xc3\xa9\xc3", "\x00", "nul\x00inside", "\x80\x81 \x82",
+	"foo\uFFFDbar", "\uFFFD", "a\uFFFD", "x\uFFFD\uFFFDy z", "Mixed\uFFFDcase\xffEnd", // a validly encoded replacement character is a symbol, not an invalid byte
 	"12345", "1234567890", "hello world, this is a long sentence", "x", "...", "a.b.c", "--", "__", "foo@example.com", "bob@site.com alice@corp.com",
 	"aaa", "baaab aab", "The Quick Brown Fox", "ALLCAPS", "mIxEd CaSe",
 }
@@ -35,7 +36,7 @@ const (
 	asciiPunct = " _-.,!'\t\n@:/"
 )
 
-var multiRunes = []rune("éüßñçØÀǅΩжя日本語😀\u00a0\u2003ı\u0301")
+var multiRunes = []rune("éüßñçØÀǅΩжя日本語😀\u00a0\u2003ı\u0301\uFFFD")
 var badBytes = []string{"\xff", "\xc3", "\xe2\x82", "\x80", "\xf0\x9f", "\xed\xa0\x80"}
 
 // randText draws a text of one of three flavours: ASCII words, multi-byte, with invalid UTF-8.
